@@ -228,6 +228,24 @@ CHECKS["C15"] = dict(
     technique="Coq proof (induction over histories, Q) + generated expressions/tables + vm_compute correspondence + differential runs",
     design="4/C15")
 
+CHECKS["C03"] = dict(
+    text="Theorems: the generated 2D/3D connectivity (regenerated from mesh2D/mesh3D on every run) lists exactly the cells of the "
+         "(r, theta, z) grid in tube node order, names only existing nodes, eight distinct corners per cell, injective numbering; "
+         "pressure on a closed polygonal surface has zero resultant, each facet carries p times its length along its outward "
+         "normal and nothing else, nodal loads are halves of the adjacent facets, axial weights add up to the height; the facet "
+         "limit generated from define_boundary separates inner-surface facets from every other boundary facet (midpoint radii "
+         "by trigonometry over R) and the 1D window holds the inner node only; the closed-form generalised-plane-strain field "
+         "satisfies radial equilibrium for every differentiable wall temperature profile (Coquelicot), its constants follow "
+         "from the two surface conditions, d(r^2 s_rr)/dr = r (s_rr + s_tt), the axial slope is E.  Tied to the code by "
+         "evaluating connectivity and the assembled unit-pressure load of real scikit-fem states against the model in Coq, and "
+         "by solves: second-order convergence of element-mean stresses to the closed form (1D, 2D), 2D = 3D to solver "
+         "accuracy, 1D vs 2D converging with nt, axial force closed form, stiffness*h/area = E.",
+    note="partial: convergence of the finite-element solution to the closed form and agreement of the abstractions are "
+         "checked on sampled problems (mesh-accuracy bounds calibrated: 1.0*(dr/t)^2 in 1D, 1.5*((dr/t)^2 + (pi/nt)^2 r/t) in 2D), "
+         "not proved; scikit-fem assembly and NEML are trusted; odd nt is outside the property.",
+    technique="Coq proof (nat/Q + nsatz-free algebra; Reals/Coquelicot for the closed form) + generated connectivity and limits + vm_compute correspondence + convergence runs",
+    design="4/C03")
+
 NOT_YET = {}
 
 def main():
